@@ -122,6 +122,12 @@ def step (st : Storage) : List String → Storage × String
     match parseList inputs, ofHex id with
     | some inputs, some id => (st, fmt (codeRoot H inputs st id))
     | _, _ => (st, "bad-op")
+  -- CROO after the contract's code has been removed from the VM's storage (the harness removes it after `init_script`)
+  | ["croomissing", inputs, id] =>
+    match parseList inputs, ofHex id with
+    | some inputs, some id =>
+      (st, fmt (codeRoot H inputs { st with contracts := st.contracts.filter (fun e => e.1 != id) } id))
+    | _, _ => (st, "bad-op")
   | ["state", id, key] =>
     match ofHex id, ofHex key with
     | some id, some key =>
